@@ -21,7 +21,7 @@ TECHNIQUE = ("property-based testing (Hypothesis): generated query-set chains, m
 RULE = ("One case = a model (1-2 partition key columns, 0-2 clustering columns, 2-6 other columns among scalar/set/list/map/static, "
         "some with a db_field name different from the attribute name, some indexed) and a program: one operation, or 2-5 DML "
         "operations inside one BatchQuery.  Operations: select chains (filter with =, IN, >, >=, <, <=, CONTAINS, LIKE, IS NOT NULL, "
-        "pk__token comparisons, keyword and Model.col == v forms; order_by, limit, only/defer, allow_filtering, distinct; iterate / "
+        "pk__token comparisons and token range scans, keyword and Model.col == v forms; order_by, limit, only/defer, allow_filtering, distinct; iterate / "
         "count / first), Model.create (ttl, timestamp, if_not_exists, explicit None / empty collections), queryset update (scalar "
         "assignment, None, collection assignment, __add/__remove/__append/__prepend/__update with possibly empty collections, iff "
         "conditions with =, !=, <, <=, >, >=, if_exists, ttl, timestamp), queryset delete, and save/update/delete of an instance "
@@ -81,7 +81,7 @@ def s_options(lwt=True):
 def s_select():
     fop_ck = st.sampled_from(["EQ", "EQ", "IN", "GT", "GTE", "LT", "LTE"])
     return st.fixed_dictionaries({
-        "op": st.just("select"), "mode": st.sampled_from(["pk", "pk", "pk", "token", "scan"]),
+        "op": st.just("select"), "mode": st.sampled_from(["pk", "pk", "pk", "token", "token", "scan"]),
         "pk_ops": st.lists(st.sampled_from(["EQ", "EQ", "IN"]), min_size=2, max_size=2), "n_in": st.integers(0, 3),
         "token_op": st.sampled_from(["EQ", "GT", "GTE", "LT", "LTE"]),
         "ck": st.lists(fop_ck, max_size=2), "extra": st.lists(st.tuples(_I, st.sampled_from(["EQ", "CONTAINS", "LIKE", "GT", "IN"])), max_size=2),
@@ -573,6 +573,17 @@ def run_select(w, M, cols, op, tags):
         w.ctx.label("filter:token:" + op["token_op"])
         kw[name] = functions.Token(*vals)
         where.append(["token:" + ",".join(c.db for c in pks), _CMP[op["token_op"]], json.dumps(keys)])
+        # a token range scan: the second bound follows the first token() clause in the same WHERE
+        second = {"GT": "LTE", "GTE": "LT", "LT": "GTE", "LTE": "GT"}.get(op["token_op"])
+        if second and op["ck"]:
+            vals2, keys2 = [], []
+            for col in pks:
+                p2, t2 = tags.value(col.desc, ("token:" + ",".join(c.db for c in pks), "where"))
+                vals2.append(p2)
+                keys2.append(_vkey(col.tree, t2))
+            w.ctx.label("filter:token-range")
+            kw["pk__token__%s" % second.lower()] = functions.Token(*vals2)
+            where.append(["token:" + ",".join(c.db for c in pks), _CMP[second], json.dumps(keys2)])
     else:
         allow = True
     if op["mode"] != "token":
